@@ -66,6 +66,103 @@ def rm_oracle(case, out):
     return None
 
 
+# ------------------------------------------------------------------ read path (RD) ------
+THR_OFF = 4294967295
+
+def src_bytes(n, salt=0):
+    """deterministic source content function: byte i of the source"""
+    return [((i * 37 + 11 + salt * 101) % 251) + 1 for i in range(n)]        # never 0x00, 0xAA=170 avoided below
+
+def hx(b): return ''.join('%02x' % x for x in b) if b else '-'
+def unhx(s): return [] if s == '-' else [int(s[i:i + 2], 16) for i in range(0, len(s), 2)]
+
+def rd_parse(case):
+    kv = dict(t.split('=', 1) for t in case.split(' ')[1:])
+    d = dict(page=int(kv['page']), unit=int(kv['unit']), pool=kv['pool'] == '1', tp=kv['tp'] == '1', maxr=int(kv['maxr']),
+             thr=int(kv['thr']), refilling=int(kv['refilling']), src=unhx(kv['src']), actual=int(kv['actual']),
+             filled=[] if kv['filled'] == '-' else [tuple(int(x) for x in iv.split('-')) for iv in kv['filled'].split(';')],
+             media=unhx(kv['media']), td=kv['td'] == '1', sor=[] if kv['sor'] == '-' else kv['sor'].split(','),
+             wor=[] if kv['wor'] == '-' else kv['wor'].split(','), ops=[])
+    for o in kv['ops'].split(','):
+        f = o.split('/')
+        if f[0] == 'R':
+            held = [] if f[3] == '-' else [tuple(int(x) for x in h.split(':')) for h in f[3].split(';')]
+            d['ops'].append(('R', int(f[1]), [int(x) for x in f[2].split('+')], held, f[4]))
+        elif f[0] == 'E': d['ops'].append(('E', int(f[1]), int(f[2])))
+        else: d['ops'].append(('T',))
+    return d
+
+def rd_case(page, unit, src, actual, filled, media, td, ops, pool=0, tp=0, refilling=0, thr=THR_OFF, sor=(), wor=()):
+    def opstr(o):
+        if o[0] == 'R':
+            held = ';'.join('%d:%d:%d' % h for h in o[3]) if len(o) > 3 and o[3] else '-'
+            fl = (o[4] if len(o) > 4 and o[4] else '-')
+            return 'R/%d/%s/%s/%s' % (o[1], '+'.join(map(str, o[2])), held, fl)
+        if o[0] == 'E': return 'E/%d/%d' % (o[1], o[2])
+        return 'T'
+    return ('RD page=%d unit=%d pool=%d tp=%d maxr=128 thr=%d refilling=%d src=%s actual=%d filled=%s media=%s td=%d sor=%s wor=%s ops=%s'
+            % (page, unit, pool, tp, thr, refilling, hx(src), actual, ';'.join('%d-%d' % iv for iv in filled) or '-', hx(media), td,
+               ','.join(sor) or '-', ','.join(wor) or '-', ','.join(opstr(o) for o in ops)))
+
+def rd_consistent(d):
+    """the hypothesis of the property: every cached byte equals the source byte, sizes sane"""
+    S = len(d['src'])
+    if not (0 <= d['actual'] <= S): return False
+    if d['page'] <= 0 or d['unit'] <= 0: return False
+    if d['actual'] % d['page'] != 0 and d['actual'] != S: return False
+    pe = None
+    for (s, e) in d['filled']:
+        if not (0 <= s < e): return False
+        if pe is not None and not pe < s: return False
+        pe = e
+        if e > len(d['media']) or e > S: return False
+        if d['media'][s:e] != d['src'][s:e]: return False
+        if not d['td'] and e > d['actual']: return False
+    for o in d['ops']:
+        if o[0] == 'R':
+            if o[1] < 0: return False
+            for (ho, hl, hf) in o[3]:
+                if hl <= 0: return False
+        if o[0] == 'E' and (o[1] < 0 or o[2] < -1): return False
+    return True
+
+def rd_oracle(case, out):
+    d = rd_parse(case)
+    if not rd_consistent(d): return None
+    S, src = len(d['src']), d['src']
+    src_faults = any(t[0] in 'sf' for t in d['sor'])
+    m = re.match(r'(.*) ST actual=(-?\d+) filled=\[(.*)\] media=(\S+) td=(\d) refilling=(-?\d+)$', out)
+    if not m: return 'unparsable output %r' % out[:200]
+    toks = m.group(1).split(' ')
+    if len(toks) != len(d['ops']): return 'wrong number of op results'
+    for o, t in zip(d['ops'], toks):
+        ret_s, ub_s, ev_s = t.split(':')
+        evs = [] if ev_s == '-' else ev_s.split(',')
+        for e in evs:
+            if e.startswith('sr'):
+                off, ln, r = (int(x) for x in e[2:].split('/'))
+                if off + ln > S: return 'source read (offset %d, length %d) reaches beyond the source size %d' % (off, ln, S)
+        if o[0] != 'R': continue
+        off, cnt, flags = o[1], sum(o[2]), o[4]
+        ret, ub = int(ret_s), unhx(ub_s)
+        full = max(0, min(cnt, S - off))
+        if ret < 0:
+            if src_faults or 'c' in flags: continue
+            return 'read(offset %d, count %d) failed (%d) although no source read failed' % (off, cnt, ret)
+        if ret > full: return 'read(offset %d, count %d) returned %d bytes, more than the %d the source has' % (off, cnt, ret, full)
+        if ub[:ret] != src[off:off + ret]:
+            k = next(i for i in range(ret) if ub[i] != src[off + i])
+            return 'read(offset %d, count %d) returned wrong byte at +%d: %02x, source has %02x' % (off, cnt, k, ub[k], src[off + k])
+        if ret != full and not src_faults: return 'read(offset %d, count %d) returned %d bytes, source has %d' % (off, cnt, ret, full)
+        if any(b != 0xAA for b in ub[full:]): return 'read(offset %d, count %d) wrote into the buffer beyond the %d source bytes' % (off, cnt, full)
+    filled = [tuple(int(x) for x in iv.split('-')) for iv in m.group(3).split(';') if iv]
+    media = unhx(m.group(4))
+    for (s, e) in filled:
+        if e > len(media) or e > S or media[s:e] != src[s:e]:
+            return 'after the run the cache holds a byte in [%d,%d) that differs from the source (or lies outside media/source)' % (s, e)
+    return None
+
+
 class Check(DiffCheck):
     id = 'C17'
     coq_dirs = ['C17']
@@ -81,7 +178,7 @@ class Check(DiffCheck):
     partial_note = ''
 
     def build_impl(self):
-        exe, log = cxx_build(self.id, ['harness/C17/harness.cpp'])
+        exe, log = cxx_build(self.id, ['harness/C17/harness.cpp'], libphoton=True)
         if not exe: raise RuntimeError(log)
         return exe
 
@@ -125,12 +222,146 @@ class Check(DiffCheck):
             cs.append('RM %s %s' % (','.join(ops), ','.join(qs)))
         return cs
 
+
+    # ---- read path
+    def _media_for(self, src, filled, mlen, rng=None):
+        """media content consistent with `filled`: source bytes where filled, complement bytes elsewhere"""
+        m = [(src[i] ^ 0xFF) if i < len(src) else 0x5C for i in range(mlen)]
+        for (a, b) in filled:
+            for i in range(a, min(b, mlen)): m[i] = src[i] if i < len(src) else 0
+        return m
+
+    def _states(self, S):
+        """a few cached-range patterns over a file of size S (all inside [0,S))"""
+        st = [[], [(0, S)]] if S > 0 else [[]]
+        if S >= 3: st += [[(0, S // 2)], [(S // 2, S)], [(1, S - 1)]]
+        if S >= 7: st += [[(0, 2), (S - 2, S)], [(2, 4), (5, 7)], [(3, S - 3)] if S - 3 > 3 else [(3, 4)]]
+        return st
+
+    def gen_rd(self, tier, rng):
+        cs = []
+        quick = tier == 'quick'
+        # (A) exhaustive: every (offset, count), one segment, over small files, units {4,8}, three pool configurations
+        sizes = (0, 1, 5, 8, 11) if quick else (0, 1, 3, 5, 8, 11, 13, 16)
+        pools = (dict(pool=0, tp=0), dict(pool=1, tp=1), dict(pool=1, tp=0))
+        for S in sizes:
+            src = src_bytes(S, S)
+            for unit in (4, 8):
+                for filled in self._states(S):
+                    media = self._media_for(src, filled, S)
+                    for pc in pools:
+                        for off in range(0, S + 2):
+                            for cnt in range(1, S + 3 - min(off, S)):
+                                # actual_size_ already known (== S) and, second variant, not yet known (0 -> tryget_size)
+                                ops = [('R', off, [cnt], [], ''), ('R', off, [cnt], [], '')]
+                                cs.append(rd_case(4, unit, src, S, filled, media, 1, ops, **pc))
+                        if pc['pool'] == 0:
+                            for off in range(0, S + 2):
+                                for cnt in range(1, S + 3 - min(off, S), 2):
+                                    ops = [('R', off, [cnt], [], ''), ('T',), ('R', off, [cnt], [], '')]
+                                    fl0 = [iv for iv in filled]
+                                    cs.append(rd_case(4, unit, src, 0 if not fl0 else S, fl0, media, 0 if not fl0 else 1, ops, **pc))
+        # (B) every 2-way segmentation (and zero-length segments) of every (offset,count), S = 9 and 10, unit 4
+        for S in ((9,) if quick else (9, 10, 12)):
+            src = src_bytes(S, 50 + S)
+            for filled in ([], [(2, 5)], [(0, 4), (6, 8)]):
+                media = self._media_for(src, filled, S)
+                for off in range(0, S + 1):
+                    for cnt in range(1, S + 2 - off):
+                        for k in range(0, cnt + 1):
+                            segs = [k, cnt - k] if k % 2 == 0 else [k, 0, cnt - k]
+                            cs.append(rd_case(4, 4, src, S, filled, media, 1, [('R', off, segs, [], '')], pool=1, tp=(k % 2)))
+        # (C) random structured, consistent initial state: sequences of reads / evictions / whole-file evictions,
+        #     faults on source reads and media writes, held range locks, cache-only and sync flags, thresholds
+        nrand = 6000 if quick else 150000
+        for _ in range(nrand):
+            cs.append(self._rand_rd(rng, consistent=True))
+        # (D) random, arbitrary (also inconsistent) states: only the model==implementation tie applies
+        for _ in range(nrand // 4):
+            cs.append(self._rand_rd(rng, consistent=False))
+        return cs
+
+    def _rand_rd(self, rng, consistent):
+        S = rng.choice((0, 1, 2, 3, 7, 8, 9, 12, 15, 16, 17, 23, 31, 32, 33, 40)) if rng.random() < 0.7 else rng.randrange(0, 41)
+        page = rng.choice((4, 4, 4, 8, 16, 1))
+        unit = rng.choice((4, 4, 8, 8, 16, 2, 1)) if rng.random() < 0.93 else rng.choice((3, 6, 12))
+        src = src_bytes(S, rng.randrange(200))
+        # cached ranges
+        filled = []
+        if S > 0 and rng.random() < 0.8:
+            pts = sorted(set(rng.randrange(0, S + 1) for _ in range(rng.randrange(2, 9))))
+            for i in range(0, len(pts) - 1, 2):
+                if filled and filled[-1][1] == pts[i]: continue
+                if pts[i] < pts[i + 1]: filled.append((pts[i], pts[i + 1]))
+            if rng.random() < 0.2: filled = [(0, S)]
+        td = 1 if rng.random() < 0.6 else 0
+        r = rng.random()
+        if r < 0.6: actual = S
+        elif r < 0.8: actual = 0
+        else: actual = (rng.randrange(0, S + 1) // page) * page
+        if consistent:
+            if not td: filled = [(a, b) for (a, b) in filled if b <= actual]
+            mlen = max([b for (_, b) in filled] + [0])
+            if rng.random() < 0.7: mlen = max(mlen, actual if rng.random() < 0.8 else rng.randrange(0, S + 1))
+            media = self._media_for(src, filled, mlen)
+        else:
+            mlen = rng.randrange(0, S + 6)
+            media = [rng.randrange(256) for _ in range(mlen)]
+            if rng.random() < 0.5: actual = rng.randrange(0, S + 9)
+            if rng.random() < 0.3 and filled: filled[-1] = (filled[-1][0], filled[-1][1] + rng.randrange(0, 6))
+        pool = 1 if rng.random() < 0.6 else 0
+        tp = 1 if pool and rng.random() < 0.7 else 0
+        refilling = 0 if rng.random() < 0.7 else rng.choice((1, 5, 127, 128, 129, 200))
+        thr = THR_OFF if rng.random() < 0.85 else rng.choice((0, 1, 5, 128, 200))
+        ops = []
+        for _ in range(rng.randrange(1, 7)):
+            k = rng.random()
+            if k < 0.72:
+                mode = rng.randrange(5)
+                if mode == 0: off = rng.randrange(0, S + 3); cnt = rng.randrange(0, S + 4)
+                elif mode == 1: off = (rng.randrange(0, S + 1) // unit) * unit; cnt = rng.choice((unit, 2 * unit, unit - 1, unit + 1, 1))
+                elif mode == 2: off = max(0, S - rng.randrange(0, unit + 2)); cnt = rng.randrange(1, 2 * unit + 2)           # around EOF
+                elif mode == 3 and filled: iv = rng.choice(filled); off = max(0, iv[0] - rng.randrange(0, 3)); cnt = max(1, iv[1] - off + rng.randrange(-2, 3))
+                else: off = rng.randrange(0, max(1, S)); cnt = rng.randrange(1, max(2, S - off + 2))
+                # segmentation
+                segs = []
+                rest = cnt
+                while rest > 0 and len(segs) < 5:
+                    t = rng.randrange(0, rest + 1) if rng.random() < 0.7 else rest
+                    segs.append(t); rest -= t
+                if rest: segs.append(rest)
+                if not segs: segs = [0]
+                if rng.random() < 0.1: segs.insert(rng.randrange(len(segs) + 1), 0)
+                held = []
+                if rng.random() < 0.15 and S > 0:
+                    pts = sorted(set(rng.randrange(0, S + 2) for _ in range(rng.randrange(2, 5))))
+                    for i in range(0, len(pts) - 1, 2):
+                        held.append((pts[i], pts[i + 1] - pts[i], 1 if rng.random() < 0.6 else 0))
+                    if consistent and not td:
+                        held = [h for h in held if h[0] + h[1] <= actual or not h[2]]
+                fl = ''
+                if rng.random() < 0.08: fl += 'c'
+                if rng.random() < 0.1: fl += 's'
+                ops.append(('R', off, segs, held, fl))
+            elif k < 0.86:
+                a = rng.randrange(0, S + 2); n = rng.choice((-1, -1, rng.randrange(1, S + 3)))
+                ops.append(('E', a, n))
+            else:
+                ops.append(('T',))
+        def faults(p):
+            if rng.random() > p: return []
+            return [rng.choice(('k', 'k', 'k', 'f', 's%d' % rng.randrange(0, 9))) for _ in range(rng.randrange(1, 8))]
+        sor, wor = faults(0.2), faults(0.15)
+        if not consistent and rng.random() < 0.3: ops = [o if o[0] != 'R' else (o[0], o[1] - rng.choice((0, 0, 0, 5)),) + o[2:] for o in ops]
+        return rd_case(page, unit, src, actual, filled, media, td, ops, pool=pool, tp=tp, refilling=refilling, thr=thr, sor=sor, wor=wor)
+
     def gen_cases(self, tier, rng):
         cs = []
         cp = os.path.join(VERIF, 'replay', 'corpus', 'C17.cases')
         if os.path.exists(cp):
             cs += [l.strip() for l in open(cp) if l.strip() and not l.startswith('#')]
         cs += self.gen_rm(tier, rng)
+        cs += self.gen_rd(tier, rng)
         return list(dict.fromkeys(cs))
 
     # ---------------------------------------------------------------- classification
@@ -155,6 +386,7 @@ class Check(DiffCheck):
         if out.startswith('CRASH'): return 'implementation crashed: ' + out
         k = case.split(' ', 1)[0]
         if k == 'RM': return rm_oracle(case, out)
+        if k == 'RD': return rd_oracle(case, out)
         return None
 
     def neighbours(self, case, rng):
